@@ -21,6 +21,13 @@ import (
 // 12% of the documents hold the SAME map / slice value at two or more places (ShareSubtrees,
 // b8_helpers.go: a DAG, as a value the tree that is printed); their paths always contain `..`
 // and the full result is put to jpv-spec on the document as a value as well.
+// An eighth of the multi-name selectors are LONG (8..40 quoted names, more than the object has members, present
+// names unsorted and repeated; LongNames in b9_scale.go). One case in 100 is of class scale: either a generated
+// document with padded containers (arrays up to 1100 elements, objects up to 70 members) and a path that applies
+// a wildcard / long union / slice / long multi-name list / filter to a padded container, or (half of them) SEVERAL
+// arrays side by side, short ones first and one or two long ones (64..1100) later, under a path `P[*]` / `P.*`
+// whose P selects all of them (`$[*][*]`, `$.*[*]`, `$.a[*].*`, `$..[*]` …). Half of the scale cases start from
+// empty buffer pools (FreshPools: two garbage collections, the state of a program that has just started).
 // Two instances are checked with their own right-hand sides:
 //   - `..X rest`   = `$`+X+rest applied to every container below each value the prefix
 //     selects, in pre-order (containers enumerated here in Go);
@@ -292,6 +299,100 @@ type c08Case struct {
 	steps  []*Step
 	fns    []Fn
 	shared []string // ShareSubtrees: which containers are one Go object at two places
+	tags   []string
+	fresh  bool // evaluate the full path with empty buffer pools
+}
+
+// c08ScaleCase: class scale (see the head of the file).
+func c08ScaleCase(r *Rng) c08Case {
+	o := DefaultOpts()
+	o.ErrBias = 6
+	o.NoRootOps = true
+	var c c08Case
+	c.fresh = r.Chance(50)
+	c.tags = []string{"class:scale"}
+	if c.fresh {
+		c.tags = append(c.tags, "scale:fresh-pools")
+	}
+	if r.Chance(50) {
+		// several arrays side by side, a long one later
+		n := r.Range(2, 5)
+		arrs := make([]interface{}, n)
+		long := 0
+		for k := range arrs {
+			ln := r.Range(1, 5)
+			if k > 0 && (r.Chance(45) || (k == n-1 && long == 0)) {
+				ln = []int{64, 65, 70, 130, 257, 300, 1100}[r.Intn(7)]
+				long++
+			}
+			a := make([]interface{}, ln)
+			rec := r.Chance(25)
+			for x := range a {
+				if rec {
+					a[x] = map[string]interface{}{"a": float64(1000*k + x), "b": GenScalar(r)}
+				} else {
+					a[x] = float64(1000*k + x)
+				}
+			}
+			arrs[k] = a
+		}
+		var holder interface{} = arrs
+		byKey := r.Chance(40)
+		if byKey {
+			m := map[string]interface{}{}
+			for k, a := range arrs {
+				m[[]string{"a", "b", "c", "d", "e"}[k]] = a
+			}
+			holder = m
+		}
+		var all *Step
+		switch r.Weighted([]int{55, 15, 15, 15}) {
+		case 0:
+			all = &Step{Kind: StWild, Bracket: r.Chance(50)}
+		case 1:
+			if byKey {
+				all = &Step{Kind: StMulti, Names: []Name{{Key: "a"}, {Key: "b"}, {Key: "c"}, {Key: "d"}, {Key: "e"}}[:n]}
+			} else {
+				sl := Sub{Kind: SubSlice}
+				all = &Step{Kind: StUnion, Subs: []Sub{sl}}
+			}
+		case 2:
+			all = &Step{Kind: StFilter, Q: &Query{Kind: QExist, P: &Path{Head: HeadCur}}}
+		default:
+			all = nil // `..[*]` below
+		}
+		last := &Step{Kind: StWild, Bracket: r.Chance(70)}
+		c.doc = holder
+		if r.Chance(40) {
+			k := r.Pick(BaseKeys)
+			c.doc = map[string]interface{}{k: holder, "z": GenScalar(r)}
+			c.steps = append(c.steps, &Step{Kind: StChild, Key: k})
+		}
+		if all == nil {
+			c.steps = append(c.steps, &Step{Kind: StDesc, Inner: &Step{Kind: StWild, Bracket: true}})
+		} else {
+			c.steps = append(c.steps, all, last)
+		}
+		if r.Chance(20) {
+			c.steps = append(c.steps, &Step{Kind: StChild, Key: "a"})
+		}
+		c.tags = append(c.tags, "scale:several-arrays-a-long-one-later")
+		return c
+	}
+	doc, inf := ScaleDoc(r, o, InflateOpts{Arrays: true, Objects: true, MaxNodes: 1500})
+	c.doc = doc
+	var p *Path
+	if len(inf) > 0 {
+		p = ScalePath(r, doc, inf[r.Intn(len(inf))], o, 40)
+	} else {
+		p = o.genPathFrom(r, doc, doc, HeadRoot, 4, false)
+	}
+	c.steps = p.Steps
+	if r.Chance(15) {
+		c.fns = append(c.fns, Fn{Name: FilterFns[r.Weighted([]int{30, 25, 25, 8, 12})]})
+	}
+	c.tags = append(c.tags, ScaleTags(inf)...)
+	return c
 }
 
 func c08Gen(r *Rng) c08Case {
@@ -335,10 +436,16 @@ func c08Gen(r *Rng) c08Case {
 			o = oQ
 		}
 		var s *Step
+		before := node
 		if i == forcedAt {
 			s, node, ok = c08DescStep(r, o, doc, node, ok, r.Intn(9))
 		} else {
 			s, node, ok = o.genStep(r, doc, node, ok, true)
+		}
+		if s.Kind == StMulti && r.Chance(12) {
+			// a long list of names
+			m, _ := before.(map[string]interface{})
+			s.Names = LongNames(r, m, r.Range(8, 40), BaseKeys, 6)
 		}
 		c.steps = append(c.steps, s)
 	}
@@ -484,10 +591,18 @@ func (c08) Exec(seed int64, i int, tier string) Record {
 	var fullPath *Path
 	var fullText string
 	var full Outcome
+	scale := i%100 == 13
 	for a := 0; a < attempts; a++ {
-		c = c08Gen(r)
+		if scale {
+			c = c08ScaleCase(r)
+		} else {
+			c = c08Gen(r)
+		}
 		fullPath = &Path{Head: HeadRoot, Steps: c.steps, Fns: c.fns}
 		fullText = Render(fullPath, nil)
+		if c.fresh {
+			FreshPools()
+		}
 		full = Run(fullText, c.doc, &e.cfg)
 		if full.OK || c08Abnormal(full) {
 			break
@@ -510,6 +625,12 @@ func (c08) Exec(seed int64, i int, tier string) Record {
 		return rec
 	}
 	tags := map[string]bool{}
+	for _, t := range c.tags {
+		tags[t] = true
+	}
+	if n := scaleMaxNames(fullPath); n >= 8 {
+		tags["multi:long-list"] = true
+	}
 	if full.OK {
 		tags["full:ok"] = true
 	} else {
